@@ -501,6 +501,9 @@ pub fn gen_stream(rng: &mut Rng, cfg: ProdCfg) -> Stream {
             }
         }
     }
+    if giant && rng.chance(1, 400) {
+        plant_dense_ids(rng, &mut stream);
+    }
     if giant && rng.chance(1, 700) {
         plant_giant(rng, &mut stream);
         bound = stream.header.bound;
@@ -622,6 +625,75 @@ pub fn plant_giant(rng: &mut Rng, stream: &mut Stream) {
         }
     }
     stream.header.bound += 2;
+}
+
+/// Dense ids across power-of-two boundaries: every id in [bound+1, top] carries a 64-bit numeric type (by
+/// declaration or by propagation from an OpUndef), and every id of the form 2^k-1, 2^k, 2^k+1 in that range is
+/// consumed (OpConstant of the declared ones, an OpSwitch in its own block for the propagated ones).  Any table
+/// split, cache size or index width that changes behaviour at such an id shows as a wrong literal width.
+pub fn plant_dense_ids(rng: &mut Rng, stream: &mut Stream) {
+    let s = snap();
+    let base = stream.header.bound + 1;
+    let top: u32 = if rng.chance(1, 12) { 66_000 } else { *rng.pick(&[300u32, 1_100, 2_100, 4_200]) };
+    if base + 8 >= top {
+        return;
+    }
+    let at = stream.insts.iter().position(|i| i.is("Function")).unwrap_or(stream.insts.len());
+    let mut boundary = std::collections::BTreeSet::new();
+    for k in 4..=16u32 {
+        for d in [-1i64, 0, 1] {
+            let b = (1i64 << k) + d;
+            if b > base as i64 + 1 && b <= top as i64 {
+                boundary.insert(b as u32);
+            }
+        }
+    }
+    let float = rng.chance(1, 3);
+    let decl = |id: u32| {
+        if float {
+            MInst { opcode: s.op("TypeFloat"), rtype: None, rid: Some(id), ops: vec![MOp::W(s.k_lit32, 64)] }
+        } else {
+            MInst { opcode: s.op("TypeInt"), rtype: None, rid: Some(id), ops: vec![MOp::W(s.k_lit32, 64), MOp::W(s.k_lit32, 0)] }
+        }
+    };
+    let mut seq = vec![decl(base)];
+    let mut declared = vec![];
+    let mut propagated = vec![];
+    for id in base + 1..=top {
+        if boundary.contains(&id) && rng.chance(1, 3) {
+            seq.push(decl(id));
+            declared.push(id);
+        } else {
+            seq.push(MInst { opcode: s.op("Undef"), rtype: Some(base), rid: Some(id), ops: vec![] });
+            if boundary.contains(&id) {
+                propagated.push(id);
+            }
+        }
+    }
+    let mut next = top + 1;
+    for b in &declared {
+        seq.push(MInst { opcode: s.op("Constant"), rtype: Some(*b), rid: Some(next), ops: vec![MOp::L64(0x0123_4567_89ab_cdef ^ *b as u64)] });
+        next += 1;
+    }
+    for (j, i) in seq.into_iter().enumerate() {
+        stream.insts.insert(at + j, i);
+    }
+    if !propagated.is_empty() {
+        stream.insts.push(MInst { opcode: s.op("Function"), rtype: Some(base), rid: Some(next), ops: vec![MOp::W(s.kind("FunctionControl"), 0), MOp::W(s.k_idref, base)] });
+        next += 1;
+        for b in &propagated {
+            stream.insts.push(MInst { opcode: s.op("Label"), rtype: None, rid: Some(next), ops: vec![] });
+            stream.insts.push(MInst {
+                opcode: s.op("Switch"),
+                rtype: None,
+                rid: None,
+                ops: vec![MOp::W(s.k_idref, *b), MOp::W(s.k_idref, next), MOp::L64(0xfeed_0000_0000_0000 | *b as u64), MOp::W(s.k_idref, next)],
+            });
+            next += 1;
+        }
+        stream.insts.push(MInst { opcode: s.op("FunctionEnd"), rtype: None, rid: None, ops: vec![] });
+    }
+    stream.header.bound = next + 1;
 }
 
 /// Structured control flow as real modules have it: half of the merge instructions name the label that follows
